@@ -5,6 +5,23 @@ ROOT = os.path.dirname(os.path.dirname(os.path.abspath(__file__)))
 ALL = ["C%02d" % i for i in range(1, 21)]
 
 CHECKS = {
+ "C07": dict(
+    category="model_checking",
+    text="TLC proves the burst lemma on the CRC-16 definition: every burst of 1..16 bits at each of the 8 bit alignments leaves a "
+         "non-zero remainder (all 2^15 odd patterns x 8 offsets), XOR-linearity in the data, and that feeding zero bytes never "
+         "maps a non-zero register to zero (all 65536 states) - so a burst in a stored member can never be masked, whatever the "
+         "member's length. On the implementation: all bursts of width <= 16 at every bit offset of stored members of 1..4 "
+         "(thorough: up to 24) bytes are applied and lha_reader_check must say bad (about 10^6 cases, exhaustive). For generated "
+         "archives in every method (intact; recorded CRC/length perturbed; data bit flips; truncation; declared length 0 and "
+         "2^32-1; unsupported method; multi-member mixes) three passes through the real reader are recorded - read (all bytes "
+         "logged), check, extract - plus `lha t` and `lha x`; the trace spec computes length and CRC-16 of the produced bytes "
+         "with its own Crc16 and requires every verdict (library return values, Tested/Melted lines, exit status) to be "
+         "exactly supported /\\ length = recorded /\\ CRC = recorded.",
+    design_ref="DESIGN.md section 5, C07",
+    note="The recorded length/CRC are taken as the library returns them in the header (C05 covers parsing). MacBinary members "
+         "are excluded (the envelope is stripped before the caller sees the bytes).",
+    technique="TLC model checking of the CRC burst lemma (Crc16 spec); exhaustive burst injection on the implementation; trace "
+              "validation of read/check/extract/CLI verdicts against the spec's own CRC-16 of the logged bytes"),
  "C13": dict(
     category="model_checking",
     text="TLC checks liveness of the loops that could fail to return: the read-loop variant of lha_input_stream_skip (one action "
